@@ -13,13 +13,17 @@
    UB "signed overflow" when they leave int; the theorem excludes OutOfFuel and every UB that is not a
    fault of the argument list itself (too few arguments for the directives, a %s argument that is not a
    pointer to a string / not terminated within its buffer - the three messages of [caller_fault]).
-   MISSING: the exact-fetch clause needs an independent list-level definition of "the arguments a
-   format names" and a proof that the parser's va_arg log equals it; the check covers it dynamically
+   The exact-fetch clause is proved for well-formed input only (C20_printf_fetches_named_directive: for
+   every directive of the grammar without n$, the va_arg log is exactly "*", ".*", the converted value, every
+   supplied argument is consumed and the positional cache is untouched).
+   MISSING for arbitrary byte lists: an independent list-level definition of "the arguments a format
+   names" and a proof that the parser's va_arg log equals it; the check covers it dynamically
    (comp/printf/gen.py scan_args is that independent definition; the harness reads the number of
    fetches off the real va_list and the model's log is compared with it, kind "va-overrun"). *)
 From Coq Require Import String.
 From Coq Require Import NArith ZArith List Bool.
-From FV Require Import Printf.PrintIntModel Printf.PrintfModel Printf.PrintfSafety.
+From FV Require Import Printf.PrintIntModel Printf.PrintfModel Printf.PrintfSafety Printf.IsoPrintf Printf.PrintfConform
+  Printf.PrintfStageA Printf.PrintfConformProofs.
 Import ListNotations.
 
 Theorem C20_printf_total_safe_partial :
@@ -45,3 +49,18 @@ Example C20_printf_total_safe_examples :
   /\ run [37; 57; 57; 57; 57; 57; 57; 57; 57; 57; 57; 57; 100]%N [1%N] = AssertStop msg_width_overflow
   /\ run [37; 100; 37; 100]%N [1%N] = UB "va_arg past the last argument".
 Proof. repeat split; vm_compute; reflexivity. Qed.
+
+(* the exact-fetch clause on well-formed input: a directive of the grammar (no n$) fetches exactly the arguments it names *)
+Theorem C20_printf_fetches_named_directive :
+  forall (d : directive) (v : argval),
+    d_pos d = None -> in_grammar d = true -> fits d v = true ->
+    run_printf (mem_of d v) (render d) (args_of d v) cache_init
+    = (mk_ps (iso_printf d v) (mk_vs [] (star_pops d ++ value_argty d) cache_init 0), Ok tt).
+Proof. exact printf_nopos_run. Qed.
+Print Assumptions C20_printf_fetches_named_directive.
+
+Example C20_printf_fetches_named_example :
+  let d := mk_dir None [FMinus] WStar PStar Ll Cx in
+  in_grammar d = true /\ fits d (mk_av 7 3 255 []) = true
+  /\ star_pops d ++ value_argty d = [ATInt; ATInt; ATLong].
+Proof. repeat split; reflexivity. Qed.
